@@ -122,7 +122,7 @@ Definition with_nonce (q : freq) (n : string) : freq :=
 (* ---------- symbolic execution of the handlers ---------- *)
 Ltac unfold_handlers H :=
   cbn [exec h_authorize h_implicit h_redeem h_refresh h_password h_client_credentials h_device_authorize h_decide h_poll
-       h_revoke h1_initiate h1_authorize h1_exchange h1_access cb_query_client gen save_token_then nonce_check
+       h_revoke h_jwt_bearer client_may_jwt h1_initiate h1_authorize h1_exchange h1_access cb_query_client gen save_token_then nonce_check
        refuse_and_delete client_ok ctr_of fst snd
        f_codes f_toks f_devs f_grants f_temps f_tok1 f_nonces f_ctr
        upd_ctr set_codes set_toks set_devs set_grants set_temps set_tok1 set_nonces
@@ -254,7 +254,7 @@ Definition is_ok (r : fresp) : bool := match r with RErr _ => false | _ => true 
 
 Ltac unfold_goal :=
   cbn [exec h_authorize h_implicit h_redeem h_refresh h_password h_client_credentials h_device_authorize h_decide h_poll
-       h_revoke h1_initiate h1_authorize h1_exchange h1_access cb_query_client gen save_token_then nonce_check
+       h_revoke h_jwt_bearer client_may_jwt h1_initiate h1_authorize h1_exchange h1_access cb_query_client gen save_token_then nonce_check
        refuse_and_delete client_ok ctr_of fst snd
        f_codes f_toks f_devs f_grants f_temps f_tok1 f_nonces f_ctr
        upd_ctr set_codes set_toks set_devs set_grants set_temps set_tok1 set_nonces].
@@ -270,5 +270,5 @@ Ltac retry_ok := repeat (unfold_goal; use_facts_goal); do 3 eexists; split; refl
 
 Definition oauth2_kind (k : string) : bool :=
   list_in_str k ["authorize"; "implicit"; "redeem"; "refresh"; "password"; "client_credentials"; "device_authorize";
-                 "decide"; "poll"; "revoke"].
+                 "decide"; "poll"; "revoke"; "jwt_bearer"].
 
